@@ -3,6 +3,7 @@ pub mod cb;
 pub mod core;
 pub mod enc;
 pub mod event;
+pub mod evgen;
 pub mod geom;
 pub mod maps;
 pub mod midas;
